@@ -8,6 +8,7 @@ package upload
 // says.
 
 import (
+	"path"
 	"crypto/rand"
 	"crypto/sha256"
 	"encoding/binary"
@@ -49,6 +50,8 @@ type c08Run struct {
 	Extras    bool     `json:"extras"` // add an active and an unreadable count file (must stay untouched)
 	BuildVar  int      `json:"buildVar"`  // which of the five build fields differs between odd and even files (0 GOARCH, 1 GOOS, 2 GoVersion, 3 Version, 4 Program, 5 none: one build, values add up)
 	ModeLocal bool     `json:"modeLocal"` // the mode file says local: reports are made, nothing is offered for upload
+	EndFmt    int      `json:"endFmt"`    // 0: TimeEnd written as ...Z; 1: even files write the same instant as ...+00:00; 2: all files do
+	Aged      bool     `json:"aged"`      // the reports were made by an earlier run; every uploader of the race starts 14 days later (weeks older than 21 days)
 }
 
 // c08Build is the build (program, version, Go version, GOOS, GOARCH) that wrote count file f.
@@ -65,7 +68,7 @@ func c08Build(f, v int) [5]string {
 		case 3:
 			b[1] = "v1.1.0"
 		case 4:
-			b[0] = "prog2"
+			b[0] = "example.com/local.prog" // its count files are named local.prog@...: not to be taken for local reports
 		}
 	}
 	return b
@@ -178,7 +181,7 @@ func (w *c08World) project() rt.M {
 	count := []int{}
 	for i, f := range w.run.Files {
 		_ = i
-		if _, err := os.Stat(filepath.Join(local, c08CountName(f))); err == nil {
+		if _, err := os.Stat(filepath.Join(local, c08CountName(f, w.run.BuildVar))); err == nil {
 			count = append(count, f)
 		}
 	}
@@ -212,11 +215,16 @@ func (w *c08World) project() rt.M {
 		"alive": alive, "untouched": untouched, "quiet": quiet}
 }
 
-func c08Arch(f int) string { return c08Build(f, 0)[4] }
-
-// the name of a count file does not matter to the uploader (it reads the metadata)
-func c08CountName(f int) string {
-	return fmt.Sprintf("f%d-prog@v1.0.0-go1.21.0-linux-%s-2024-01-01.v1.count", f, c08Arch(f))
+// c08CountName: the uploader takes every *.v1.count file and reads the build from its metadata; names sort by
+// file id (the model parses in that order).  In variant 4 the names begin with "local." like the count files of
+// a program whose base name does (they must not be taken for local reports).
+func c08CountName(f, v int) string {
+	b := c08Build(f, v)
+	pre := ""
+	if v == 4 {
+		pre = "local."
+	}
+	return fmt.Sprintf("%sf%d-%s@%s-%s-%s-%s-2024-01-01.v1.count", pre, f, path.Base(b[0]), b[1], b[2], b[3], b[4])
 }
 
 func TestVerifC08(t *testing.T) {
@@ -257,12 +265,16 @@ func c08One(t *testing.T, run *c08Run) {
 		end := c08WeekDate[run.WeekOf[i]]
 		endT, _ := time.Parse("2006-01-02", end)
 		b := c08Build(f, run.BuildVar)
-		meta := rt.V1Meta(endT.AddDate(0, 0, -7).Format(time.RFC3339), endT.Format(time.RFC3339), b[0], b[1], b[2], b[3], b[4])
+		endS := endT.Format(time.RFC3339)
+		if run.EndFmt == 2 || (run.EndFmt == 1 && f%2 == 0) {
+			endS = endT.Format("2006-01-02T15:04:05") + "+00:00" // the same instant, written with a numeric offset
+		}
+		meta := rt.V1Meta(endT.AddDate(0, 0, -7).Format(time.RFC3339), endS, b[0], b[1], b[2], b[3], b[4])
 		data, err := rt.WriteV1(meta, []rt.V1Entry{{Name: "c", Value: 1 << uint(f)}, {Name: c08Stack, Value: 1 << uint(f)}})
 		if err != nil {
 			t.Fatal(err)
 		}
-		os.WriteFile(filepath.Join(local, c08CountName(f)), data, 0666)
+		os.WriteFile(filepath.Join(local, c08CountName(f, run.BuildVar)), data, 0666)
 	}
 	for i, f := range run.Files {
 		if !isLate[f] {
@@ -293,17 +305,17 @@ func c08One(t *testing.T, run *c08Run) {
 			meta := rt.V1Meta(endT.AddDate(0, 0, -7).Format(time.RFC3339), endT.Format(time.RFC3339), b[0], b[1], b[2], b[3], b[4])
 			full, _ := rt.WriteV1(meta, []rt.V1Entry{{Name: "c", Value: 1 << 21}})
 			hdr := append([]byte{}, full[:rt.V1HeaderLen(meta)]...)
-			p3 := filepath.Join(local, "mcut-prog@v1.0.0-go1.21.0-linux-"+c08Arch(f)+"-2024-01-02.v1.count")
+			p3 := filepath.Join(local, "mcut-prog@v1.0.0-go1.21.0-linux-"+b[4]+"-2024-01-22.v1.count")
 			os.WriteFile(p3, hdr, 0666)
 			w.extras[p3] = sha(hdr)
 			tab := rt.V1HeaderLen(meta) + 4
 			binary.LittleEndian.PutUint32(full[tab+4*rt.V1Hash("c"):], 0x00ffff00)
-			p4 := filepath.Join(local, "mlink-prog@v1.0.0-go1.21.0-linux-"+c08Arch(f)+"-2024-01-03.v1.count")
+			p4 := filepath.Join(local, "mlink-prog@v1.0.0-go1.21.0-linux-"+b[4]+"-2024-01-23.v1.count")
 			os.WriteFile(p4, full, 0666)
 			w.extras[p4] = sha(full)
 			empty, _ := rt.WriteV1(meta, nil)
-			os.WriteFile(filepath.Join(local, "aaa-idle-prog@v1.0.0-go1.21.0-linux-"+c08Arch(f)+"-2024-01-04.v1.count"), empty, 0666)
-			os.WriteFile(filepath.Join(local, "zzz-idle-prog@v1.0.0-go1.21.0-linux-"+c08Arch(f)+"-2024-01-05.v1.count"), empty, 0666)
+			os.WriteFile(filepath.Join(local, "aaa-idle-prog@v1.0.0-go1.21.0-linux-"+b[4]+"-2024-01-24.v1.count"), empty, 0666)
+			os.WriteFile(filepath.Join(local, "zzz-idle-prog@v1.0.0-go1.21.0-linux-"+b[4]+"-2024-01-25.v1.count"), empty, 0666)
 			break
 		}
 	}
@@ -312,7 +324,7 @@ func c08One(t *testing.T, run *c08Run) {
 			Stacks: []telemetry.CounterConfig{{Name: "st", Rate: 1, Depth: 4}}}
 	}
 	cfg := &telemetry.UploadConfig{GOOS: []string{"linux", "darwin"}, GOARCH: []string{"amd64", "386"}, GoVersion: []string{"go1.21.0", "go1.22.0"}, SampleRate: 1,
-		Programs: []*telemetry.ProgramConfig{pc("prog"), pc("prog2")}}
+		Programs: []*telemetry.ProgramConfig{pc("prog"), pc("example.com/local.prog")}}
 
 	srv := httptest.NewServer(http.HandlerFunc(func(rw http.ResponseWriter, r *http.Request) {
 		body, _ := io.ReadAll(r.Body)
@@ -388,6 +400,15 @@ func c08One(t *testing.T, run *c08Run) {
 	}
 	defer func() { rt.FaultHook = nil }()
 
+	if run.Aged {
+		// an earlier run (at the normal start time) made the reports and could not deliver them; the race
+		// happens two weeks later, when the older weeks are more than 21 days in the past
+		u0 := &uploader{config: cfg, configVersion: "v1.2.3", dir: telemetry.NewDir(w.dir), uploadServerURL: srv.URL,
+			startTime: start, logger: log.New(io.Discard, "", 0)}
+		todo := u0.findWork()
+		u0.reports(&todo)
+		start = start.AddDate(0, 0, 14)
+	}
 	for ui, name := range run.Uploaders {
 		name := name
 		// the uploaders start on different UTC days (13 h apart); the same count files are finished for all of them
